@@ -237,6 +237,32 @@ def rootsText : List (List Nest) → M Str
       | p :: ps => (p.runStrings) >>= fun a => (parsText ps) >>= fun b => pure (sjoin a ++ b)
     (parsText (leafParsL r)) >>= fun a => (rootsText rs) >>= fun b => pure (a ++ b)
 
+mutual
+/-- `tree.iter(q)` without the root: the descendants with that qualified name, in document order -/
+def descTagged (q : QName) : Xml → List Xml
+  | .elem i p t m a tx tl ks => (if t == q then [.elem i p t m a tx tl ks] else []) ++ descTaggedL q ks
+  | _ => []
+def descTaggedL (q : QName) : List Xml → List Xml
+  | [] => []
+  | k :: ks => descTagged q k ++ descTaggedL q ks
+end
+
+/-- `for marker in …: f(marker.attrib[qn(marker, "w:id")])` -/
+def foldIds (f : DC → Str → M DC) : DC → List Xml → M DC
+  | s, [] => pure s
+  | s, m :: ms => (m.attrReq (lit "w") (lit "id")) >>= fun id => (f s id) >>= fun s1 => foldIds f s1 ms
+
+/-- `_open_hyperlink`: the link is one run; a comment range that starts / ends inside the link
+starts before / ends after that run -/
+def openHyperlink (cfg : PartCfg) (s : DC) (x : Xml) (roots : List (List Nest)) : M DC :=
+  (rootsText roots) >>= fun t =>
+  (wq x "commentRangeStart") >>= fun qs =>
+  (foldIds DC.startRange s (descTaggedL qs x.kids)) >>= fun s1 =>
+  (linkRun cfg x t) >>= fun r =>
+  (s1.insertNewRun cfg.html r) >>= fun s2 =>
+  (wq x "commentRangeEnd") >>= fun qe =>
+  foldIds DC.endRange s2 (descTaggedL qe x.kids)
+
 /-- `TagRunner.open` after the caret has been set; `roots` are the collectors of a
 hyperlink's children (empty for every other element) -/
 def openStep (cfg : PartCfg) (s : DC) (x : Xml) (inCell : Bool) (roots : List (List Nest)) : M (DC × Bool) :=
@@ -253,7 +279,7 @@ def openStep (cfg : PartCfg) (s : DC) (x : Xml) (inCell : Bool) (roots : List (L
   | some "SYM" => withTrue ((symCode x) >>= fun c => match c with | some c => s.addCode cfg.html c | none => pure s)
   | some "FOOTNOTE" => withTrue (noteLabel s x "footnote")
   | some "ENDNOTE" => withTrue (noteLabel s x "endnote")
-  | some "HYPERLINK" => withFalse ((rootsText roots) >>= fun t => (linkRun cfg x t) >>= fun r => s.insertNewRun cfg.html r)
+  | some "HYPERLINK" => withFalse (openHyperlink cfg s x roots)
   | some "FORM_CHECKBOX" => withTrue ((checkBoxEntry x) >>= fun t => s.insertNewRun cfg.html t)
   | some "FORM_DDLIST" => withTrue ((ddListEntry x) >>= fun t => s.insertNewRun cfg.html t)
   | some "FOOTNOTE_REFERENCE" => withTrue ((x.attrReq (lit "w") (lit "id")) >>= fun id =>
